@@ -18,7 +18,8 @@ def py_loss_grad(M, Pinv, vab, vcd, w):
     loss = (w[viol] * (np.sqrt(dab[viol]) - np.sqrt(dcd[viol])) ** 2).sum() + np.sum(M * Pinv) - np.linalg.slogdet(M)[1]
     G = Pinv - np.linalg.inv(M)
     for a, da, c, dc, ww in zip(vab[viol], dab[viol], vcd[viol], dcd[viol], w[viol]):
-        G = G + ww * ((1 - np.sqrt(dc / da)) * np.outer(a, a) + (1 - np.sqrt(da / dc)) * np.outer(c, c))
+        # (a comparison whose second pair is one point, d_cd = 0: its term w·d_ab is linear, the d_cd part drops out)
+        G = G + ww * ((1 - np.sqrt(dc / da)) * np.outer(a, a) + ((1 - np.sqrt(da / dc)) * np.outer(c, c) if dc > 0 else 0.0))
     return loss, G
 
 
@@ -44,6 +45,11 @@ def run(R, tier, seed, driver_ok):
             quads = X[zoo.quads_from(X, y, rng, n=int(rng.randint(4, 20)))]
         if rep % 5 == 4:
             quads = quads[rng.choice(len(quads), size=int(rng.randint(1, 4)), replace=False)]   # one to three comparisons
+        if rep % 6 == 2:
+            # comparisons whose second pair is one point (c == d): always violated, linear in the metric
+            quads = quads.copy()
+            for j in rng.choice(len(quads), size=min(len(quads), int(rng.randint(1, 3))), replace=False):
+                quads[j, 3] = quads[j, 2]
         nq = len(quads)
         prior_kind = ['identity', 'covariance', 'random', 'array'][rep % 4]
         if nq <= 3 and prior_kind == 'covariance':
@@ -118,24 +124,59 @@ def run(R, tier, seed, driver_ok):
                     e3 = LSML(prior=prior, tol=tol, max_iter=max_iter, random_state=sd).fit(quads, weights=(list(wraw) if wmode == 'array' else np.asarray(wraw)))
                     for tag, ee in (('rescaled', e2), ('list-vs-array', e3)):
                         M2 = ee.get_mahalanobis_matrix()
-                        l2, _ = py_loss_grad(M2, Pinv, vab, vcd, w)
+                        l2, G2_ = py_loss_grad(M2, Pinv, vab, vcd, w)
                         # (last-bit differences in the normalised weights may flip one accept/reject decision of the
                         # line search: both runs must still end at the same optimum up to the solver tolerance)
                         exact = np.abs(M2 - M).max() <= 1e-8 * nm
-                        if not exact and (abs(l2 - l1) > 1e-4 * max(1.0, abs(l1)) or np.abs(M2 - M).max() > 1e-2 * nm):
-                            R.violation(f'LSML/weights-{tag}', f'{tag} weights change the learned metric (objective {l2:.8g} vs {l1:.8g}, max diff {np.abs(M2 - M).max() / nm:.3g})', case)
+                        # … and two runs that exhaust max_iter without converging are two unconverged trajectories: rounding
+                        # differences grow along them, only the objective level is comparable (1 %)
+                        unconv = ee.n_iter_ >= max_iter or est.n_iter_ >= max_iter
+                        if unconv:
+                            if abs(l2 - l1) > 1e-2 * max(1.0, abs(l1)):
+                                R.violation(f'LSML/weights-{tag}', f'{tag} weights change the objective level reached within max_iter ({l2:.8g} vs {l1:.8g})', case)
+                        elif not exact and (abs(l2 - l1) > 1e-4 * max(1.0, abs(l1)) or np.abs(M2 - M).max() > 1e-2 * nm):
+                            R.violation(f'LSML/weights-{tag}', f'{tag} weights change the learned metric (objective {l2:.8g} vs {l1:.8g}, max diff {np.abs(M2 - M).max() / nm:.3g}; n_iter_ {ee.n_iter_} vs {est.n_iter_}, gradient norms {np.linalg.norm(G2_):.3g} vs {gn:.3g})', case)
                 except Exception as e:
                     R.violation(f'LSML/weights-variant-raises-{type(e).__name__}', f'weights variant raised {type(e).__name__}: {str(e)[:100]}', case)
+        # what the implementation's own _total_loss / _gradient return at its result (with its own normalised weights)
+        try:
+            li = float(est._total_loss(M, vab, vcd, Pinv)); Gi = np.asarray(est._gradient(M, vab, vcd, Pinv))
+        except Exception as e:
+            R.violation(f'LSML/loss-gradient-raises-{type(e).__name__}', f'_total_loss/_gradient raised {type(e).__name__} at the learned matrix', case); continue
         lines.append(f'lsml_eval {d} {nq} {bits(M)} {bits(Pinv)} {bits(vab)} {bits(vcd)} {bits(w)}')
-        meta.append((l1, G1, case))
+        meta.append((l1, G1, case, li, Gi))
+    # ---- a zero iteration budget returns the prior
+    for rep in range(2 if tier == 'quick' else 10):
+        d = int(rng.randint(2, 5))
+        X, y = zoo.blobs(rng, d)
+        quads = X[zoo.quads_from(X, y, rng, n=6)]
+        store = {}
+        orig = ml._initialize_metric_mahalanobis
+
+        def spy0(*a, **k):
+            out = orig(*a, **k); store['M0'] = np.array(out[0], copy=True); return out
+        ml._initialize_metric_mahalanobis = spy0
+        R.case(('c12-zero', quads.tobytes().hex()[:64]), True, branch='zero-budget')
+        try:
+            with warnings.catch_warnings():
+                warnings.simplefilter('ignore')
+                e0 = LSML(max_iter=0, prior=['identity', 'covariance'][rep % 2]).fit(quads)
+            if np.abs(e0.get_mahalanobis_matrix() - store['M0']).max() > 1e-9 * np.abs(store['M0']).max():
+                R.violation('LSML/zero-budget', 'max_iter=0 does not return the prior', {'quadruplets': quads})
+        except Exception as e:
+            R.violation(f'LSML/fit-raises-{type(e).__name__}/zero-budget', f'LSML(max_iter=0).fit raised {type(e).__name__}: {str(e)[:160]}', {'quadruplets': quads})
+        finally:
+            ml._initialize_metric_mahalanobis = orig
     if driver_ok and lines:
         outs = lean_run(lines)
-        for o, (l1, G1, case) in zip(outs, meta):
+        for o, (l1, G1, case, li, Gi) in zip(outs, meta):
             v = parse_ok_floats(o)
             if v is None or v.size != 1 + G1.size:
                 R.broken('correspondence:C12:lsml_eval', f'model answered {o[:60]}', case); continue
             if abs(v[0] - l1) > 1e-8 * max(1.0, abs(l1)) or np.abs(v[1:] - G1.ravel()).max() > 1e-7 * max(1.0, np.abs(G1).max()):
                 R.broken('correspondence:C12:lsml_eval', f'twin objective/gradient differ from the reference evaluation (loss {v[0]} vs {l1})', case)
+            elif abs(v[0] - li) > 1e-8 * max(1.0, abs(li)) or Gi.shape != G1.shape or np.abs(v[1:] - Gi.ravel()).max() > 1e-7 * max(1.0, np.abs(Gi).max()):
+                R.broken('correspondence:C12:lsml_impl', f"the model's objective/gradient (C12_first_order is about them) differ from the implementation's _total_loss/_gradient at the learned matrix (loss {v[0]} vs {li}, max gradient difference {np.abs(v[1:] - Gi.ravel()).max() if Gi.shape == G1.shape else 'shape'})", case)
         R.extra['traces_validated_against_impl'] = len(lines)
 
 
